@@ -39,12 +39,21 @@ CHECKS = {
    technique="differential property testing (same generated program with cache on and off, both vs. the reference model)",
    text="Persistent programs are executed with the read cache on and off; both executions must agree with the model call by call, so a stale cache entry masking an update, delete, re-creation, TTL change or restart is a failure.",
    note="Trusted: model; executions are compared through the model because automatic timestamps depend on per-process hash seeds."),
+ "C02": dict(engine="crash", cat="fault_enumeration", ref="§5 C02",
+   technique="crash-point enumeration over the recorded device-write trace of proptest-generated workloads (prefix x subset of un-synced writes x sector tearing), each image reopened and judged by a per-key history-window oracle",
+   text="For every acknowledgement (flush Ok / clean close) in generated workloads, every later trace point and an enumerated family of lost/reordered/torn un-synced writes yields an image that the real recovery must open to states no older than the acknowledged ones. Fault enumeration is the natural level: the quantifier is over crash points and write subsets of a finite trace.",
+   note="Trusted: the I/O observer hook reports every pwrite/fsync/io_uring write in device order (writes are serialised by the DiskIO lock); standard crash model (writes before a completed fsync are durable; later ones independently absent/present/torn at 512 B); file length assumed durable."),
+ "C03": dict(engine="crash", cat="fault_enumeration", ref="§5 C03",
+   technique="crash-point enumeration over the whole device-write trace incl. open/recovery, with hostile payloads (record/marker/tombstone images with valid tokens), judged by authenticity + history-window + index-agreement oracles",
+   text="Every trace point of generated workloads (before, between, after acknowledgements, inside open) with enumerated subsets/tearings; the image must open and expose only complete generations from each key's own history inside the [acked, begun] window, no ghost keys, len() == exposed keys.",
+   note="Same trusted base as C02. One genuine defect found and repaired (fresh-device metadata not synced), see known_findings.jsonl."),
+ "C04": dict(engine="crash", cat="fault_enumeration", ref="§5 C04",
+   technique="nested crash-point enumeration: recovery of each crash image is traced, its own repair writes are cut at every point (subset/tearing), nested images must recover to the first recovery's contents; repair writes checked against live extents",
+   text="Images whose recovery writes (journal replay, retiring duplicates/expired winners, marker repair) are re-crashed inside those writes to the stated depth; contents must equal the first successful recovery's, reopening is idempotent, repairs never overlap a live extent.",
+   note="Same trusted base as C02; nested images per workload are capped (reported in evidence), virtual clock fixed during recovery."),
 }
 
 NOT_YET = {
- "C02": "crash-image engine not registered yet (in construction)",
- "C03": "crash-image engine not registered yet (in construction)",
- "C04": "crash-image engine not registered yet (in construction)",
  "C06": "unit engine not registered yet (in construction)",
  "C07": "concurrency engine not registered yet (in construction)",
  "C08": "concurrency engine not registered yet (in construction)",
